@@ -176,9 +176,11 @@ def build(typ, v):
     if typ == 'BoundingBox':
         from photutils.aperture import BoundingBox
         return BoundingBox(int(v['ixmin']), int(v['ixmax']), int(v['iymin']), int(v['iymax']))
-    if typ == 'EllipseGeometry':
+    if isinstance(typ, str) and typ.split('@')[0] == 'EllipseGeometry':
         from photutils.isophote import EllipseGeometry
-        return EllipseGeometry(float(v['x0']), float(v['y0']), 10.0, 0.2, float(v['pa']))
+        return EllipseGeometry(float(v.get('x0', 50.0)), float(v.get('y0', 50.0)),
+                               float(v.get('sma', 10.0)), 0.2, float(v.get('pa', 0.0)),
+                               linear_growth=typ.endswith('@linear'))
     if typ == 'Quantity':
         import astropy.units as u
 
